@@ -26,7 +26,7 @@ type rec struct {
 	units     string // units statement in the source
 	unitsSeen string // what Entry.Units shows: goyang fills it from deviations only (a leaf's own units live on its AST node and type)
 	removed   bool
-	parent    string // "", "box" (container), "lst" (list), "ca" (case of choice ch), "g" (grouping used by u1 and u2)
+	parent    string // "", "box" (container), "lst" (list), "ca" (case of choice ch), "g" (grouping used by u1 and u2), "aug"/"late" (added by module a's augments)
 }
 
 // path returns the absolute entry path of the (first) instance of r.
@@ -40,6 +40,10 @@ func (r *rec) path() string {
 		return "/b/ch/ca/" + r.name
 	case "g":
 		return "/b/u1/" + r.name
+	case "aug": // added to container box by an augment of module a
+		return "/b/box/" + r.name
+	case "late": // added by an augment whose path runs through the implicit case of a shorthand choice member
+		return "/b/lch/alt/alt/" + r.name
 	}
 	return "/b/" + r.name
 }
@@ -47,8 +51,13 @@ func (r *rec) path() string {
 // devPath returns the prefixed schema path used by a deviation to name r.
 func (r *rec) devPath() string {
 	p := ""
-	for _, st := range strings.Split(strings.TrimPrefix(r.path(), "/b/"), "/") {
-		p += "/bb:" + st
+	steps := strings.Split(strings.TrimPrefix(r.path(), "/b/"), "/")
+	for i, st := range steps {
+		if i == len(steps)-1 && (r.parent == "aug" || r.parent == "late") {
+			p += "/aa:" + st // the node belongs to the augmenting module
+		} else {
+			p += "/bb:" + st
+		}
 	}
 	return p
 }
@@ -75,7 +84,11 @@ func printRec(b *strings.Builder, r *rec, ind string) {
 		fmt.Fprintf(b, " key k; leaf k { type string; }")
 	}
 	if r.typ != "" {
-		fmt.Fprintf(b, " type %s;", r.typ)
+		t := r.typ
+		if t == "tdd" && (r.parent == "aug" || r.parent == "late") {
+			t = "bb:tdd" // written in module a, the typedef lives in b
+		}
+		fmt.Fprintf(b, " type %s;", t)
 	}
 	if r.units != "" {
 		fmt.Fprintf(b, " units %q;", r.units)
@@ -135,6 +148,8 @@ func Run(j *job.Job, s *job.Sink) {
 					rc.defaults = []string{fmt.Sprintf("d%d", i)}
 				} else if r.Intn(3) == 0 {
 					rc.mandatory = []string{"true", "false"}[r.Intn(2)]
+				} else if r.Intn(2) == 0 {
+					rc.typ = "tdd" // a typedef that carries a default: the leaf itself has none
 				}
 			case "leaf-list":
 				rc.typ = "string"
@@ -159,12 +174,12 @@ func Run(j *job.Job, s *job.Sink) {
 				rc.units = fmt.Sprintf("u%d", i)
 			}
 			if r.Intn(2) == 0 {
-				rc.parent = []string{"box", "box", "lst", "ca", "g", "g"}[r.Intn(6)]
+				rc.parent = []string{"box", "box", "lst", "ca", "g", "g", "aug", "late"}[r.Intn(8)]
 			}
 			recs = append(recs, rc)
 		}
 		var base strings.Builder
-		base.WriteString("module b { yang-version 1.1; namespace \"urn:b\"; prefix b;\n  typedef tdu { type uint16; }\n")
+		base.WriteString("module b { yang-version 1.1; namespace \"urn:b\"; prefix b;\n  typedef tdu { type uint16; }\n  typedef tdd { type string; default \"tdv\"; }\n")
 		section := func(parent, open, close string) {
 			base.WriteString(open)
 			for _, rc := range recs {
@@ -180,7 +195,26 @@ func Run(j *job.Job, s *job.Sink) {
 		section("lst", "  list lst { key k; leaf k { type string; }\n", "  }\n")
 		section("ca", "  choice ch { case ca { leaf filler { type string; }\n", "  } }\n")
 		section("g", "  grouping g { leaf gfiller { type string; }\n", "  }\n  container u1 { uses g; }\n  container u2 { uses g; }\n")
+		base.WriteString("  choice lch { container alt { leaf altfill { type string; } } }\n")
 		base.WriteString("}\n")
+		// module a augments b: into container box, and - through the implicit case of the
+		// shorthand member alt, which only the last augment pass can resolve - into lch/alt
+		var augText strings.Builder
+		augText.WriteString("module a { yang-version 1.1; namespace \"urn:a\"; prefix a; import b { prefix bb; }\n  augment /bb:box {\n    leaf augfill { type string; }\n")
+		for _, rc := range recs {
+			if rc.parent == "aug" {
+				printRec(&augText, rc, "    ")
+				augText.WriteString(" }\n")
+			}
+		}
+		augText.WriteString("  }\n  augment /bb:lch/bb:alt/bb:alt {\n    leaf latefill { type string; }\n")
+		for _, rc := range recs {
+			if rc.parent == "late" {
+				printRec(&augText, rc, "    ")
+				augText.WriteString(" }\n")
+			}
+		}
+		augText.WriteString("  }\n}\n")
 		// deviations
 		exp := map[string]*rec{}
 		for _, rc := range recs {
@@ -194,7 +228,7 @@ func Run(j *job.Job, s *job.Sink) {
 			if mi > 0 {
 				nm = "e"
 			}
-			fmt.Fprintf(&texts[mi], "module %s { yang-version 1.1; namespace \"urn:%s\"; prefix %s; import b { prefix bb; }\n", nm, nm, nm)
+			fmt.Fprintf(&texts[mi], "module %s { yang-version 1.1; namespace \"urn:%s\"; prefix %s; import b { prefix bb; } import a { prefix aa; }\n", nm, nm, nm)
 		}
 		devText := &texts[0]
 		allDev := func() string {
@@ -449,7 +483,7 @@ func Run(j *job.Job, s *job.Sink) {
 			texts[mi].WriteString("}\n")
 		}
 
-		caseDesc = map[string]string{"b.yang": base.String(), "d.yang+e.yang": allDev(), "ignore_not_supported_option": fmt.Sprint(ignoreNS)}
+		caseDesc = map[string]string{"b.yang": base.String(), "a.yang": augText.String(), "d.yang+e.yang": allDev(), "ignore_not_supported_option": fmt.Sprint(ignoreNS)}
 		for _, blk := range strings.Split(allDev(), "deviation ")[1:] {
 			kinds := map[string]bool{}
 			for _, k := range []string{"deviate add", "deviate replace", "deviate delete", "deviate not-supported"} {
@@ -472,6 +506,9 @@ func Run(j *job.Job, s *job.Sink) {
 			ms := yang.NewModules()
 			ms.ParseOptions.DeviateOptions.IgnoreDeviateNotSupported = ignoreNS
 			if err := ms.Parse(base.String(), "b.yang"); err != nil {
+				panic(err)
+			}
+			if err := ms.Parse(augText.String(), "a.yang"); err != nil {
 				panic(err)
 			}
 			if withDev {
